@@ -8,6 +8,7 @@
    about the unit of work is e0".  An event with the same work id and transaction hash but another
    transmit block is a different event (the transaction was mined again after a re-org). *)
 From Verif Require Import Base.Util Model.Coordinator Proofs.CoordinatorProofs.
+From Verif Require Import Base.GenIR Gen.GeneratedTr Proofs.GenTrCoordinator.
 Open Scope Z_scope.
 
 (* Every answer of ShouldProcess / PreProcess / FilterResults / FilterProposals, in every history,
@@ -81,6 +82,33 @@ Print Assumptions C07_filters_are_filters.
 Theorem C07_checker_sound : forall c h, C07_check c h = true -> C07_spec c h.
 Proof. exact C07_check_sound. Qed.
 Print Assumptions C07_checker_sound.
+
+(* ---- Tie to the source by translation (regenerated from /repo on every run, Gen/GeneratedTr.v) ----
+   The model's should_process / keep_proposal take exactly the decisions of the CURRENT ShouldProcess and
+   FilterProposals loop body as /verif/gen translated them, and the loop bodies of FilterResults / PreProcess
+   keep an element exactly when ShouldProcess admits it.  Upkeep-type and event-type constants enter as the
+   model's own codes (log = 1, conditional = 0, perform = 1); the harness maps the real constants to them. *)
+Theorem C07_gen_ShouldProcess_decisions : forall t i s,
+  let r := cget t (it_w i) (s_cache s) in
+  g_coord_ShouldProcess (opt_ok r) (e_pend (getv r)) (Z.of_N (it_ut i)) (Z.of_N UT_LOG) (Z.of_N UT_COND)
+                        (Z.of_N (e_tt (getv r))) (Z.of_N PERFORM) (Z.of_N (it_blk i)) (Z.of_N (e_tb (getv r)))
+  = ([], RetB (should_process t i s)).
+Proof. exact gen_coord_ShouldProcess. Qed.
+Print Assumptions C07_gen_ShouldProcess_decisions.
+
+Theorem C07_gen_FilterProposals_decisions : forall t i s,
+  let r := cget t (it_w i) (s_cache s) in
+  g_coord_FilterProposals_body (opt_ok r) (e_pend (getv r)) (Z.of_N (it_ut i)) (Z.of_N UT_LOG)
+                               (Z.of_N (e_tt (getv r))) (Z.of_N PERFORM)
+  = if keep_proposal t i s then ([1], Fall) else ([], Cont).
+Proof. exact gen_coord_FilterProposals. Qed.
+Print Assumptions C07_gen_FilterProposals_decisions.
+
+Theorem C07_gen_filter_loop_bodies : forall should : bool,
+  g_coord_filter_body should = ((if should then [1] else []), Fall) /\
+  g_coord_preprocess_body should = ((if should then [1] else []), Fall).
+Proof. exact gen_coord_filter_bodies. Qed.
+Print Assumptions C07_gen_filter_loop_bodies.
 
 (* Non-vacuity: life-cycle accept -> perform -> re-propose -> expiry for a conditional (type 0) and a
    log (type 1) work id; the hypotheses of the theorems above are met along the way. *)
